@@ -19,6 +19,127 @@ Example traversal_priorities_lt_gt_eq : Params.traversal_priorities = ["lt"; "gt
 Example serializer_keys_mass_rad : Params.serializer_keys = [("MASS", "mass"); ("RAD", "rad")]. Proof. reflexivity. Qed.
 (* element table: 118 elements, hydrogen isotopes D/T, V2000 charge codes *)
 Example element_count : List.length Elements.element_table = 118%nat. Proof. reflexivity. Qed.
+(* the periodic table itself, written down here independently of the source: symbol <-> atomic number *)
+Definition periodic_table : list (string * N) :=
+  [("H", 1%N);
+   ("He", 2%N);
+   ("Li", 3%N);
+   ("Be", 4%N);
+   ("B", 5%N);
+   ("C", 6%N);
+   ("N", 7%N);
+   ("O", 8%N);
+   ("F", 9%N);
+   ("Ne", 10%N);
+   ("Na", 11%N);
+   ("Mg", 12%N);
+   ("Al", 13%N);
+   ("Si", 14%N);
+   ("P", 15%N);
+   ("S", 16%N);
+   ("Cl", 17%N);
+   ("Ar", 18%N);
+   ("K", 19%N);
+   ("Ca", 20%N);
+   ("Sc", 21%N);
+   ("Ti", 22%N);
+   ("V", 23%N);
+   ("Cr", 24%N);
+   ("Mn", 25%N);
+   ("Fe", 26%N);
+   ("Co", 27%N);
+   ("Ni", 28%N);
+   ("Cu", 29%N);
+   ("Zn", 30%N);
+   ("Ga", 31%N);
+   ("Ge", 32%N);
+   ("As", 33%N);
+   ("Se", 34%N);
+   ("Br", 35%N);
+   ("Kr", 36%N);
+   ("Rb", 37%N);
+   ("Sr", 38%N);
+   ("Y", 39%N);
+   ("Zr", 40%N);
+   ("Nb", 41%N);
+   ("Mo", 42%N);
+   ("Tc", 43%N);
+   ("Ru", 44%N);
+   ("Rh", 45%N);
+   ("Pd", 46%N);
+   ("Ag", 47%N);
+   ("Cd", 48%N);
+   ("In", 49%N);
+   ("Sn", 50%N);
+   ("Sb", 51%N);
+   ("Te", 52%N);
+   ("I", 53%N);
+   ("Xe", 54%N);
+   ("Cs", 55%N);
+   ("Ba", 56%N);
+   ("La", 57%N);
+   ("Ce", 58%N);
+   ("Pr", 59%N);
+   ("Nd", 60%N);
+   ("Pm", 61%N);
+   ("Sm", 62%N);
+   ("Eu", 63%N);
+   ("Gd", 64%N);
+   ("Tb", 65%N);
+   ("Dy", 66%N);
+   ("Ho", 67%N);
+   ("Er", 68%N);
+   ("Tm", 69%N);
+   ("Yb", 70%N);
+   ("Lu", 71%N);
+   ("Hf", 72%N);
+   ("Ta", 73%N);
+   ("W", 74%N);
+   ("Re", 75%N);
+   ("Os", 76%N);
+   ("Ir", 77%N);
+   ("Pt", 78%N);
+   ("Au", 79%N);
+   ("Hg", 80%N);
+   ("Tl", 81%N);
+   ("Pb", 82%N);
+   ("Bi", 83%N);
+   ("Po", 84%N);
+   ("At", 85%N);
+   ("Rn", 86%N);
+   ("Fr", 87%N);
+   ("Ra", 88%N);
+   ("Ac", 89%N);
+   ("Th", 90%N);
+   ("Pa", 91%N);
+   ("U", 92%N);
+   ("Np", 93%N);
+   ("Pu", 94%N);
+   ("Am", 95%N);
+   ("Cm", 96%N);
+   ("Bk", 97%N);
+   ("Cf", 98%N);
+   ("Es", 99%N);
+   ("Fm", 100%N);
+   ("Md", 101%N);
+   ("No", 102%N);
+   ("Lr", 103%N);
+   ("Rf", 104%N);
+   ("Db", 105%N);
+   ("Sg", 106%N);
+   ("Bh", 107%N);
+   ("Hs", 108%N);
+   ("Mt", 109%N);
+   ("Ds", 110%N);
+   ("Rg", 111%N);
+   ("Cn", 112%N);
+   ("Nh", 113%N);
+   ("Fl", 114%N);
+   ("Mc", 115%N);
+   ("Lv", 116%N);
+   ("Ts", 117%N);
+   ("Og", 118%N)].
+Example element_table_is_periodic_table : Elements.element_table = periodic_table. Proof. reflexivity. Qed.
 Example hydrogen_isotopes_D_T : Elements.hydrogen_isotope_table = [("D", ("H", 2%Z)); ("T", ("H", 3%Z))]. Proof. reflexivity. Qed.
 Example v2000_charge_codes : Elements.v2000_charge_table =
   [(1, (true, 3)); (2, (true, 2)); (3, (true, 1)); (4, (false, 2)); (5, (true, -1)); (6, (true, -2)); (7, (true, -3))]%Z.
